@@ -18,12 +18,15 @@ PY = "/venv/bin/python"
 
 
 def _load_known(prop):
-    path = os.path.join(VERIF, "known_findings.json")
-    if not os.path.exists(path):
-        return []
-    with open(path) as f:
-        data = json.load(f)
-    return [e for e in data.get("findings", []) if e.get("property") == prop]
+    out = []
+    # STV_KNOWN_EXTRA: development aid only (triage of candidate findings before they are
+    # committed to known_findings.json); never set by the registered commands.
+    for path in (os.path.join(VERIF, "known_findings.json"), os.environ.get("STV_KNOWN_EXTRA")):
+        if path and os.path.exists(path):
+            with open(path) as f:
+                data = json.load(f)
+            out += [e for e in data.get("findings", []) if e.get("property") == prop]
+    return out
 
 
 def _child_env():
